@@ -301,8 +301,7 @@ structure CreateEffect (t t' : T) (parent : Option Deme) (seed : Option Ind) : P
     (∃ lc, t.cfg.levels[d.level]? = some lc) ∧
     ∃ invs : List Inv, t'.log = t.log ++ invs ∧ invs.length ≤ d.counter ∧
       (∀ i ∈ invs, i.level = d.level ∧ ∃ lc, t.cfg.levels[d.level]? = some lc ∧ inBox lc.box i.x = true) ∧
-      (t'.refused = false → invs.length = d.counter ∨
-        ∃ lc, t.cfg.levels[d.level]? = some lc ∧ lc.engine = .localOpt ∧ invs.length = 0)
+      (t'.refused = false → invs.length = d.counter)
 
 theorem addChild_forall2 (pid cid : Id) (ds : List Deme) :
     List.Forall₂ SameBC ds (updFirst pid (fun x => { x with children := x.children ++ [cid] }) ds) := by
@@ -362,8 +361,7 @@ theorem createDeme_effect {t t' : T} {parent : Option Deme} {seed : Option Ind} 
           exact ⟨a, lc', hlc', hb⟩
         · intro hrf
           by_cases hl : lc.engine = .localOpt
-          · right
-            refine ⟨lc, hlc, hl, ?_⟩
+          · simp only [hl, beq_self_eq_true, ↓reduceIte]
             rename_i hok
             cases seed with
             | none => simp [initPopOk, hl] at hok
@@ -378,8 +376,7 @@ theorem createDeme_effect {t t' : T} {parent : Option Deme} {seed : Option Ind} 
                 rw [this] at hn
                 simp only [List.length_nil] at hn
                 omega
-          · left
-            have : (lc.engine == Engine.localOpt) = false := by simpa using hl
+          · have : (lc.engine == Engine.localOpt) = false := by simpa using hl
             simp only [this, Bool.false_eq_true, ↓reduceIte]
             exact hr hrf
 
